@@ -39,6 +39,8 @@ func runC12(run *Run, replay string) {
 			}
 			scs12 = append(scs12, lf)
 		}
+		// typing states of a value under every constraint kind, every offset of the value
+		scs12 = append(scs12, valueFocusShare(bi, bases)...)
 		for si, sc := range scs12 {
 			sc.W.Collect()
 			f := sc.Main.Ctx.Files[sc.File]
